@@ -21,9 +21,10 @@ const (
 	clsOverBig          // process-overloaded by two targets none of which fits anywhere else (60+60 next to loaded shards)
 	clsOverSmall        // process-overloaded by targets that can be relieved (90 + 30)
 	clsIdleExpiredStale // idle for long, but its Prometheus still reports 65 stale head series
+	clsHeadOver         // two movable targets of 30: process 60, head 60 (over 1.1 x a head limit of 50)
 )
 
-var clsNames = []string{"loaded", "idle-recent", "idle-expired", "not-ready", "out-of-sync", "get-fail", "runtime-fail", "loaded-small", "overloaded-stuck", "overloaded-relievable", "idle-expired-stale-head"}
+var clsNames = []string{"loaded", "idle-recent", "idle-expired", "not-ready", "out-of-sync", "get-fail", "runtime-fail", "loaded-small", "overloaded-stuck", "overloaded-relievable", "idle-expired-stale-head", "head-overloaded"}
 
 func c07Shard(cls int, idx int, maxHead int64) (h1.Shard, []h1.Tgt) {
 	s := h1.Shard{Ready: true}
@@ -49,6 +50,12 @@ func c07Shard(cls int, idx int, maxHead int64) (h1.Shard, []h1.Tgt) {
 		s.Head, s.Proc = a+b, a+b
 		ts = append(ts, h1.Tgt{Hash: h, Job: "j", Discovered: true, Explore: &h1.St{Health: "up", Series: a, Total: a}},
 			h1.Tgt{Hash: h + 50, Job: "j", Discovered: true, Explore: &h1.St{Health: "up", Series: b, Total: b}})
+	case clsHeadOver:
+		h := uint64(100 + idx)
+		s.Status = map[uint64]h1.St{h: {Health: "up", Times: 5, Series: 30, Total: 30}, h + 50: {Health: "up", Times: 5, Series: 30, Total: 30}}
+		s.Head, s.Proc = 60, 60
+		ts = append(ts, h1.Tgt{Hash: h, Job: "j", Discovered: true, Explore: &h1.St{Health: "up", Series: 30, Total: 30}},
+			h1.Tgt{Hash: h + 50, Job: "j", Discovered: true, Explore: &h1.St{Health: "up", Series: 30, Total: 30}})
 	case clsIdleRecent:
 		s.IdleAgoSec = i64p(10)
 	case clsIdleExpired:
@@ -94,6 +101,24 @@ func c07Gen(c *chk.Ctx) func(emit func(*h1.Scenario)) {
 		classes = []int{clsLoaded, clsIdleRecent, clsIdleExpired, clsNotReady, clsOutOfSync, clsOverBig, clsOverSmall, clsIdleExpiredStale, clsRuntimeFail, clsLoadedMovable}
 		heads = []int64{0, 100, 1000}
 	}
+	return func(emit func(*h1.Scenario)) {
+		// second pass: a head limit (50) below the process limit, so that head space can be needed while
+		// process space is not; small shard lists over the classes that matter for it
+		for pass := 0; pass < 2; pass++ {
+			if pass == 1 {
+				maxN = 2
+				if c.Thorough() {
+					maxN = 3
+				}
+				classes = []int{clsLoaded, clsIdleExpired, clsIdleExpiredStale, clsHeadOver, clsNotReady}
+				heads = []int64{50}
+			}
+			c07GenPass(c, maxN, classes, heads, emit)
+		}
+	}
+}
+
+func c07GenPass(c *chk.Ctx, maxN int, classes []int, heads []int64, emit func(*h1.Scenario)) {
 	type mm struct{ min, max int32 }
 	var mms []mm
 	for _, max := range []int32{1, 2, 3, 99} {
@@ -103,7 +128,7 @@ func c07Gen(c *chk.Ctx) func(emit func(*h1.Scenario)) {
 			}
 		}
 	}
-	return func(emit func(*h1.Scenario)) {
+	{
 		for n := 1; n <= maxN; n++ {
 			cls := make([]int, n)
 			var rec func(i int)
@@ -256,6 +281,34 @@ func c07Oracle(sc *h1.Scenario, o *h1.Obs) []Finding {
 				}
 				if !moved && fits && sumT > sc.Opt.MaxProc {
 					unplaced = append(unplaced, 1000000+uint64(si)) // marker: shard si still needs space
+				}
+			}
+			// ... and when an in-sync shard reports head series of at least 1.1 x the head limit, its own targets'
+			// series exceed the limit, every one of them could be moved (normal, healthy, scraped three times, not
+			// larger than the limit) and the cycle moved none
+			for si := range rep.Shards {
+				s := &rep.Shards[si]
+				if sc.Opt.MaxHead == 0 || !s.InSync() || sc.Opt.NoRelieve || float64(s.Head) < 1.1*float64(sc.Opt.MaxHead) {
+					continue
+				}
+				moved := false
+				if p := h1.TargetsPost(ro.Reqs[si]); p != nil {
+					for _, e := range h1.Posted(p) {
+						if e.State == "in_transfer" {
+							moved = true
+						}
+					}
+				}
+				movable := true
+				var sumS int64
+				for _, st := range s.Status {
+					if st.Series > sc.Opt.MaxHead || st.State != "" || st.Health != "up" || st.Times < 3 {
+						movable = false
+					}
+					sumS += st.Series
+				}
+				if !moved && movable && sumS > sc.Opt.MaxHead {
+					unplaced = append(unplaced, 2000000+uint64(si)) // marker: shard si needs head space
 				}
 			}
 			for k, arg := range ro.Scales {
